@@ -83,6 +83,7 @@ def plan(ctx):
     for K in ["K1", "K2", "K3", "K4", "K5", "K6", "K7", "K8", "KG0", "K9", "K10"]:
         out.append(("S2", K, "plain"))
         out.append(("T3", K, "plain"))
+    out += [("P2z", "K0", "plain"), ("P2z", "K4", "plain"), ("P2z", "K5", "plain")]
     out += [("P2", "K5", "plain"), ("P3", "K5", "plain"), ("PK", "K5", "plain")]  # limit_sigma with mixed-sigma multi-player teams
     for K in ("K0", "K4", "K5", "K7"):
         out.append(("T3z", K, "plain"))
@@ -95,7 +96,7 @@ def plan(ctx):
     return out
 
 
-PARTS = {"PK": 2, "T5|V2": 4, "D7b1": 4, "D8b1": 8, "S2": 4, "P2": 6, "P3": 8, "T3": 8, "T4": 24, "T5": 64, "D7": 24, "D8": 64, "D8x8": 64, "T3z": 2, "S2z": 2, "T3|V6": 2}
+PARTS = {"P2z": 2, "PK": 2, "T5|V2": 4, "D7b1": 4, "D8b1": 8, "S2": 4, "P2": 6, "P3": 8, "T3": 8, "T4": 24, "T5": 64, "D7": 24, "D8": 64, "D8x8": 64, "T3z": 2, "S2z": 2, "T3|V6": 2}
 
 
 def matrix(cfg):
